@@ -1196,6 +1196,8 @@ class RawCall(BuiltinFunctionT):
 
 class Send(BuiltinFunctionT):
     _id = "send"
+    # state-modifying: rejected in @view/@pure functions by the analyser (_check_call_mutability)
+    mutability = StateMutability.NONPAYABLE
     _inputs = [("to", AddressT()), ("value", UINT256_T)]
     # default gas stipend is 0
     _kwargs = {"gas": KwargSettings(UINT256_T, 0)}
@@ -1211,6 +1213,8 @@ class Send(BuiltinFunctionT):
 
 class SelfDestruct(BuiltinFunctionT):
     _id = "selfdestruct"
+    # state-modifying: rejected in @view/@pure functions by the analyser (_check_call_mutability)
+    mutability = StateMutability.NONPAYABLE
     _inputs = [("to", AddressT())]
     _is_terminus = True
 
@@ -1278,6 +1282,8 @@ class RawRevert(BuiltinFunctionT):
 
 class RawLog(BuiltinFunctionT):
     _id = "raw_log"
+    # state-modifying: rejected in @view/@pure functions by the analyser (_check_call_mutability)
+    mutability = StateMutability.NONPAYABLE
     _inputs = [("topics", DArrayT(BYTES32_T, 4)), ("data", (BYTES32_T, BytesT.any()))]
 
     def fetch_call_return(self, node):
@@ -1583,6 +1589,8 @@ def _create_preamble(codesize):
 
 
 class _CreateBase(BuiltinFunctionT):
+    # CREATE/CREATE2 modify state: rejected in @view/@pure functions by the analyser (_check_call_mutability)
+    mutability = StateMutability.NONPAYABLE
     _kwargs = {
         "value": KwargSettings(UINT256_T, zero_value),
         "salt": KwargSettings(BYTES32_T, empty_value),
